@@ -380,9 +380,11 @@ fn zoo_args(rng: &mut Rng, d: &DeclSpec) -> Vec<Vec<u8>> {
         R::ZBlk => {
             // mostly short payloads; sometimes lengths around the powers of ten, where the
             // number of length digits in the block header changes
-            let max = match rng.below(12) {
+            let max = match rng.below(14) {
                 0 => return vec![block(&vec![b'a'; *rng.pick(&[9usize, 10, 11, 99, 100, 101, 109, 110])], 0)],
                 1 => 130,
+                // a few long ones (the answer still fits process::<1024> and the 4096 byte writer)
+                2 => return vec![block(&vec![b'q'; *rng.pick(&[255usize, 256, 257, 300, 512, 600])], 0)],
                 _ => 16,
             };
             let p = gen::special_blk_payload(rng, max, true);
